@@ -100,3 +100,90 @@ add('C14.twin_rename', 'C14', (QZ, "    calib = calibrator.Calibrator(self.float
 add('C14.result_history', 'C14', (QZ, "    quant_params = self._get_quantization_params(calibration_result)\n",
     "    if self._result.quantized_model is not None and calibration_result is None:\n      return self._result\n    quant_params = self._get_quantization_params(calibration_result)\n"),
     'C14.R3', 'quantize() short-circuits on the previous result (stale after a recipe update)')
+
+# ---------------------------------------------------------------------- C03
+MMU = 'algorithms/utils/min_max_quantize_utils.py'
+NMM = 'algorithms/uniform_quantize/naive_min_max_quantize.py'
+TIG = 'transformation_instruction_generator.py'
+QTS = 'transformations/quantize_tensor.py'
+FCS = 'algorithms/nonlinear_quantize/float_casting.py'
+TU = 'transformations/transformation_utils.py'
+DQI = 'transformations/dequant_insert.py'
+QI = 'transformations/quant_insert.py'
+add('C03.weight_only_arm', 'C03', (MMU,
+    "      transformations = [_QuantTransformation.ADD_DEQUANTIZE]\n    else:\n      transformations = [_QuantTransformation.NO_QUANTIZE]\n  else:\n    raise ValueError(",
+    "      transformations = [_QuantTransformation.QUANTIZE_TENSOR]\n    else:\n      transformations = [_QuantTransformation.NO_QUANTIZE]\n  else:\n    raise ValueError("),
+    'C03.R1', 'weight-only constants quantized in place without a DEQUANTIZE', control=True)
+add('C03.drq_outbound', 'C03', (MMU, "    if is_inbounding_tensor and is_constant:\n      transformations = [_QuantTransformation.QUANTIZE_TENSOR]\n    else:\n      transformations = [_QuantTransformation.NO_QUANTIZE]\n  elif (\n      op_quant_config.weight_tensor_config is not None",
+    "    if is_constant:\n      transformations = [_QuantTransformation.QUANTIZE_TENSOR]\n    else:\n      transformations = [_QuantTransformation.NO_QUANTIZE]\n  elif (\n      op_quant_config.weight_tensor_config is not None"),
+    'C03.R1', 'dynamic-range arm also quantizes constant outputs')
+add('C03.requant_params', 'C03', (TIG,
+    """                trans_rule.consumers,
+                producer_trans_rule.parameters,
+            )
+        )
+        transformations.append(
+            qtyping.TransformationInst(
+                qtyping.QuantTransformation.ADD_QUANTIZE,""",
+    """                trans_rule.consumers,
+                trans_rule.parameters,
+            )
+        )
+        transformations.append(
+            qtyping.TransformationInst(
+                qtyping.QuantTransformation.ADD_QUANTIZE,"""),
+    'C03.R4', 'requantize branch annotates the source tensor with the consumer parameters', control=True)
+add('C03.filter_code', 'C03', (MMU, "  fp32_type_code = 0  # See schema_py_generated.py for type code.", "  fp32_type_code = 1  # See schema_py_generated.py for type code."),
+    'C03.R2', 'dtype filter keeps FLOAT16 instead of FLOAT32')
+add('C03.reshape_shape', 'C03', (NMM, "      constraint=_OpQuantConstraint.SAME_AS_INPUT_SCALE,\n      inputs_to_ignore=[1],  # Shape tensor does not need to be quantized.\n",
+    "      constraint=_OpQuantConstraint.SAME_AS_INPUT_SCALE,\n"), 'C03.R2', 'reshape no longer excludes its shape operand explicitly')
+add('C03.unknown_skip', 'C03', ('params_generator.py',
+    """            op_quant_results = self._get_params_for_no_quant_op(
+                subgraph_op_id, op, subgraph.tensors
+            )
+            self._update_model_quant_results(op_quant_results)
+            continue""", "            continue"),
+    'C03.R3', 'unknown ops skipped without filing NO_QUANTIZE for their tensors')
+add('C03.ladder', 'C03', (QTS, "  if bitwidth <= 4:\n    return schema_py_generated.TensorType.INT4", "  if bitwidth < 4:\n    return schema_py_generated.TensorType.INT4"),
+    'C03.R5', '4-bit parameters annotated INT8 while bytes stay nibble-packed')
+add('C03.allclose', 'C03', ('qtyping.py', "        and np.array_equal(self.scale, other.scale)", "        and np.allclose(self.scale, other.scale)"),
+    'C03.R8', 'tolerant scale comparison in UniformQuantParams.__eq__')
+add('C03.eq_skip_field', 'C03', ('qtyping.py', "        and np.array_equal(self.zero_point, other.zero_point)\n        and self.symmetric == other.symmetric", "        and self.symmetric == other.symmetric"),
+    'C03.R8', 'zero point left out of UniformQuantParams.__eq__')
+_REWIRE_OLD_D = """    for input_idx in range(len(op.inputs)):
+      if op.inputs[input_idx] == transformation_input.tensor_id:
+        op.inputs[input_idx] = new_tensor_id
+"""
+_REWIRE_NEW_D = """    for input_idx in range(len(op.inputs)):
+      if op.inputs[input_idx] == transformation_input.tensor_id:
+        op.inputs[input_idx] = new_tensor_id
+        break
+"""
+_DEDUPE = [('params_generator.py',
+    """            tensor_params.consumers = copy.deepcopy(op_tensor_result.consumers)
+          else:
+            tensor_params.consumers += copy.deepcopy(op_tensor_result.consumers)
+""",
+    """            tensor_params.consumers = []
+          for consumer in op_tensor_result.consumers:
+            if consumer not in tensor_params.consumers:
+              tensor_params.consumers.append(copy.deepcopy(consumer))
+""")]
+add('C03.break_and_dedupe', 'C03', [(DQI, _REWIRE_OLD_D, _REWIRE_NEW_D)] + _DEDUPE, 'C03.R9',
+    'rewiring stops at the first operand AND consumer entries are de-duplicated (two cooperating sites)')
+add('C03.break_only', 'C03', (DQI, _REWIRE_OLD_D, _REWIRE_NEW_D), (), 'break alone is harmless: consumer lists carry one entry per operand occurrence', kind='twin')
+add('C03.dedupe_only', 'C03', _DEDUPE, (), 'de-duplication alone is harmless: each pass rewires all occurrences', kind='twin')
+add('C03.bias_const', 'C03', (NMM, """    is_constant = (
+        # Check if SRQ.
+        op_info.op_quant_config.compute_precision == _ComputePrecision.INTEGER
+        and op_info.op_quant_config.activation_tensor_config is not None
+    )""", """    is_constant = (
+        op_info.op_quant_config.compute_precision == _ComputePrecision.INTEGER
+    )"""), 'C03.R6', 'bias treated as a quantizable constant under dynamic-range quantization too')
+add('C03.weight_ops', 'C03', (MMU, "  if is_constant and op_info.op_name in frozenset.union(\n      _SUPPORTED_WEIGHT_ONLY_OPS, _SUPPORTED_DRQ_OPS\n  ):",
+    "  if is_constant and op_info.op_name in _SUPPORTED_SUBCHANNEL_OPS:"), 'C03.R6', 'only FULLY_CONNECTED constants get the weight config')
+add('C03.fcast_index', 'C03', (FCS, "          input_index=2,\n          weight_index=1,\n          bias_index=3,", "          input_index=1,\n          weight_index=2,\n          bias_index=3,"),
+    'C03.R7', 'float-casting transpose-conv casts the activation operand instead of the weight')
+add('C03.twin_table_refactor', 'C03', (MMU, "    if is_inbounding_tensor:\n      transformations = [_QuantTransformation.ADD_QUANTIZE]\n      if is_constant:\n        # Quantize the constant tensor directly to simplify downstream\n        # optimizations.\n        transformations = [_QuantTransformation.QUANTIZE_TENSOR]\n    else:",
+    "    if is_inbounding_tensor and is_constant:\n      transformations = [_QuantTransformation.QUANTIZE_TENSOR]\n    elif is_inbounding_tensor:\n      transformations = [_QuantTransformation.ADD_QUANTIZE]\n    else:"),
+    (), 'equivalent restructuring of the SRQ arm', kind='twin')
